@@ -572,6 +572,9 @@ def run(ctx: Ctx):
     for _ in range(ctx.budget(12, 200)):
         anchor = gen.rand_nfa(rng, 5, alphabet=rng.choice(gen.ALPHABETS[:4]), min_states=2)
         run_anchor_stream(ctx, anchor, ctx.budget(60, 150))
+    # 2d'. sizes at which about n pairs are merged into one class
+    for n, hole in ((1200, False), (3000, False), (3000, True)) + (((10000, False),) if thorough else ()):
+        run_long_chain(ctx, n, hole)
     # 2e. the mutable-automata option: plain containers, repeated comparisons on the same objects
     for _ in range(ctx.budget(250, 5000)):
         alpha = rng.choice(gen.ALPHABETS[:4])
@@ -687,6 +690,35 @@ def run_anchor_stream(ctx: Ctx, anchor: NFA, n_temps: int, temp_reprs=None):
         del T
 
 
+@guarded
+def run_long_chain(ctx: Ctx, n: int, hole: bool):
+    """A one-state NFA for a* against a cycle of n accepting states (the same language), or against the
+    same cycle with one non-accepting state (a different language: a^k for the position k of the hole is
+    rejected).  The comparison merges about n subset pairs into ONE class, one after the other — the
+    size at which recursive or quadratic bookkeeping gives up.  Judged by construction and, for the
+    hole, confirmed through the real reader on the witness word."""
+    star = NFA(states={0}, input_symbols={"a"}, transitions={0: {"a": {0}}}, initial_state=0, final_states={0})
+    k = n // 2
+    ring = NFA(states=set(range(n)), input_symbols={"a"},
+               transitions={i: {"a": {(i + 1) % n}} for i in range(n)}, initial_state=0,
+               final_states=set(range(n)) - ({k} if hole else set()))
+    equal = not hole
+    if hole and ring.accepts_input("a" * k) == star.accepts_input("a" * k):
+        ctx.note("long chain: witness word not confirmed by accepts_input")
+        return
+    ctx.case(("long_chain", n, hole))
+    ctx.stat("long_chain")
+    for X, Y, how in ((star, ring, "a* == ring"), (ring, star, "ring == a*")):
+        got = (call(lambda: X == Y), call(lambda: X != Y))
+        if got != (("ok", equal), ("ok", not equal)):
+            ctx.prop_fail(f"NFA == on a one-state NFA for a* and a cycle of {n} states"
+                          + (f" of which state {k} is not accepting" if hole else ", all accepting")
+                          + f" ({how}): == is {got[0]}, != is {got[1]}, but the languages are "
+                          + ("equal" if equal else f"different (word a^{k})"),
+                          dict(kind="long_chain", n=n, hole=hole), None)
+            return
+
+
 def _mutable_copy(n: NFA) -> NFA:
     """The same definition built under allow_mutable_automata=True from plain dicts and sets."""
     return NFA(states=set(n.states), input_symbols=set(n.input_symbols),
@@ -705,7 +737,12 @@ def run_mutable_option(ctx: Ctx, A0: NFA, B0: NFA, C0: NFA):
     try:
         A, B, C = _mutable_copy(A0), _mutable_copy(B0), _mutable_copy(C0)
         twins = {id(A): A0, id(B): B0, id(C): C0}
-        for i, (X, Y) in enumerate(((A, B), (B, A), (A, C), (C, B), (A, B), (B, C), (A, A))):
+        for i, (X, Y) in enumerate(((A, B), (B, A), (A, C), (C, B), (A, B), (B, C), (A, A),
+                                    (A, B), (C, A), (B, C))):
+            if i == 7:
+                # the operands were built under the option; from here on it is switched off again
+                # (the objects keep their plain containers): the answers must not depend on the switch
+                global_config.allow_mutable_automata = False
             X0, Y0 = twins[id(X)], twins[id(Y)]
             verdict, w = L.distinguish(L.raw_of(X0), L.raw_of(Y0), X0.input_symbols, budget=20000)
             ctx.case(("mutable", repr(X0), repr(Y0), i) if len(X0.states) >= 2 and len(Y0.states) >= 2 else None)
@@ -715,7 +752,9 @@ def run_mutable_option(ctx: Ctx, A0: NFA, B0: NFA, C0: NFA):
             equal = verdict == "equal"
             got = (call(lambda: X == Y), call(lambda: X != Y))
             if got != (("ok", equal), ("ok", not equal)):
-                ctx.prop_fail(f"NFA == under allow_mutable_automata=True, comparison #{i + 1} on the same objects: "
+                ctx.prop_fail(f"NFA == on operands built under allow_mutable_automata=True"
+                              + (" (option switched off again before this call)" if i >= 7 else "")
+                              + f", comparison #{i + 1} on the same objects: "
                               f"== is {got[0]}, != is {got[1]}, but the languages of the definitions as built are "
                               f"{'equal' if equal else 'different'}" + ("" if equal else f" (word {w!r})"),
                               dict(kind="mutable_option", A=repr(A0), B=repr(B0), C=repr(C0)), None)
@@ -728,6 +767,14 @@ def replay(ctx: Ctx, path: str) -> int:
     data = json.load(open(path))
     rp = data.get("replay", data)
     env = {"NFA": NFA, "frozenset": frozenset}
+    if rp.get("kind") == "long_chain":
+        run_long_chain(ctx, int(rp["n"]), bool(rp["hole"]))
+        if ctx.prop_fails:
+            print(f"VIOLATION property=C09 replay={path}")
+            print("  " + ctx.prop_fails[0]["what"])
+            return 1
+        print("replay: property holds on this input now")
+        return 0
     if rp.get("kind") == "mutable_option":
         run_mutable_option(ctx, eval(rp["A"], env), eval(rp["B"], env), eval(rp["C"], env))
         if ctx.prop_fails:
